@@ -26,6 +26,8 @@ extern "C" __attribute__((used)) const char *__ubsan_default_options() { return 
 extern "C" __attribute__((used)) const char *__tsan_default_options() { return "exitcode=66:halt_on_error=1:report_signal_unsafe=0:ignore_interceptors_accesses=1:report_thread_leaks=0"; }
 
 std::string tls_check(uint64_t seed);
+int conform_run(bool verbose);
+int conform_dump_state();
 
 static double now_s() { return std::chrono::duration<double>(std::chrono::steady_clock::now().time_since_epoch()).count(); }
 
@@ -383,6 +385,8 @@ int main(int argc, char **argv) {
     else if (a == "--evidence-dir") evidence_dir = next();
     else if (a == "--known") known_path = next();
     else if (a == "--lane") lane = next();
+    else if (a == "--dump-state") return conform_dump_state();
+    else if (a == "--conformance") { int bad = conform_run(true); printf("conformance: %d mismatching program(s)\n", bad); return bad ? 2 : 0; }
     else if (a == "--twice") {
       Json j; Plan plan;
       if (!Json::parse(read_file(next()), j) || !Plan::from_json(j.at("plan"), &plan)) return 2;
